@@ -275,6 +275,104 @@ def run(model: RepoModel, rep, tier: str):
                       f"{sorted(cf_loops - set(lov))} are loops for the CFG builder but not in LOOP_OPERATIONS: their headers read back edges "
                       f"in the first round and entry edges forever")
 
+    _r5_change_propagation(model, rep, p2)
+
+
+def _r5_change_propagation(model: RepoModel, rep, p2):
+    """C06.R5: what triggers re-linking uses / re-visiting successors."""
+    rep.rule("C06.R5", "change propagation compares like with like: the uses of a statement are re-linked whenever its in-set changed, its "
+                       "successors are re-visited whenever its out-set (or its definitions) changed, and the old sets handed in are the ones "
+                       "captured before the merge and the transfer", 4)
+    f = p2.methods.get("update_symbols_if_changed")
+    if f is None:
+        raise AnalysisError("update_symbols_if_changed vanished")
+    params = f.params
+    p_in = next((p for p in params if "old_in" in p), None)
+    p_out = next((p for p in params if "old_out" in p), None)
+    if p_in is None or p_out is None:
+        raise AnalysisError(f"{f.ref}: old in/out parameters not found")
+
+    def expand(e, depth=0):
+        if isinstance(e, ast.Name) and depth < 4:
+            ds = [n.value for n in walk_no_nested(f.node) if isinstance(n, ast.Assign) and isinstance(n.targets[0], ast.Name) and n.targets[0].id == e.id]
+            if len(ds) == 1:
+                return expand(ds[0], depth + 1)
+        if isinstance(e, ast.BoolOp):
+            return ast.BoolOp(op=e.op, values=[expand(v, depth + 1) for v in e.values])
+        return e
+
+    def compares(test, attr: str, old: str) -> bool:
+        t = expand(test)
+        for x in ast.walk(t):
+            x = expand(x) if isinstance(x, ast.Name) else x
+            if isinstance(x, ast.Compare) and len(x.ops) == 1 and isinstance(x.ops[0], (ast.NotEq, ast.Eq)):
+                sides = [x.left, x.comparators[0]]
+                if any(isinstance(s_, ast.Attribute) and s_.attr == attr for s_ in sides) and any(isinstance(s_, ast.Name) and s_.id == old for s_ in sides):
+                    return True
+        return False
+    # (i) full re-link of the uses
+    relink = None
+    for n in walk_no_nested(f.node):
+        if isinstance(n, ast.If):
+            for body, test in ((n.body, n.test),):
+                for c in (x for b in body for x in ast.walk(b)):
+                    if isinstance(c, ast.Call) and (call_name(c) or "").endswith("update_used_symbols_to_symbol_graph") \
+                            and not any(k.arg == "only_implicitly_used_symbols" for k in c.keywords):
+                        relink = (n, c)
+    key = f"{PS}::update_symbols_if_changed::uses are re-linked when the in-set changed"
+    if relink is None:
+        rep.violation("C06.R5", key, PS, f.node.lineno, "the uses of a re-visited statement are never re-linked to the definitions that now reach it")
+    else:
+        n, c = relink
+        if compares(n.test, "in_symbol_bits", p_in):
+            rep.holds("C06.R5", key, PS, n.lineno, f"`{norm(n.test)}`")
+        elif compares(n.test, "out_symbol_bits", p_out):
+            rep.violation("C06.R5", key, PS, n.lineno,
+                          f"re-linking the uses is triggered by `{norm(expand(n.test))}` (a change of the OUT set): a statement that redefines "
+                          f"the variable it reads (`x = x + 1`) keeps the same out-set when a new definition of x arrives, so the new "
+                          f"definition is never linked to this use -- a definition that reaches the use is dropped")
+        else:
+            rep.unknown("C06.R5", key, PS, n.lineno, f"trigger `{norm(n.test)}` not recognised")
+    # (ii) successors
+    key = f"{PS}::update_symbols_if_changed::successors are re-visited when the out-set changed"
+    sched = [n for n in walk_no_nested(f.node) if isinstance(n, ast.If) and any(
+        isinstance(c, ast.Call) and "stmts_with_symbol_update.add" in (call_name(c) or "") for b in n.body for c in ast.walk(b))]
+    if not sched:
+        rep.violation("C06.R5", key, PS, f.node.lineno, "successors are never queued when the out-set of a statement changes")
+    elif compares(sched[0].test, "out_symbol_bits", p_out):
+        rep.holds("C06.R5", key, PS, sched[0].lineno, f"`{norm(sched[0].test)}`")
+    elif compares(sched[0].test, "in_symbol_bits", p_in):
+        rep.violation("C06.R5", key, PS, sched[0].lineno,
+                      f"successors are queued on `{norm(expand(sched[0].test))}` (a change of the IN set) instead of the OUT set")
+    else:
+        rep.unknown("C06.R5", key, PS, sched[0].lineno, f"trigger `{norm(sched[0].test)}` not recognised")
+    # (iii) what the callers hand in
+    ar = p2.methods.get("analyze_reachable_symbols")
+    idx_in, idx_out = params.index(p_in) - 1, params.index(p_out) - 1
+    caps: Dict[str, ast.Assign] = {}
+    for n in walk_no_nested(ar.node):
+        if isinstance(n, ast.Assign) and isinstance(n.targets[0], ast.Name) and isinstance(n.value, ast.Attribute) \
+                and n.value.attr in ("in_symbol_bits", "out_symbol_bits"):
+            caps[n.targets[0].id] = n
+    calls = [c for c in walk_no_nested(ar.node) if isinstance(c, ast.Call) and (call_name(c) or "").endswith("update_symbols_if_changed")]
+    if not calls:
+        raise AnalysisError("analyze_reachable_symbols no longer calls update_symbols_if_changed")
+    reset = [n for n in walk_no_nested(ar.node) if isinstance(n, ast.Assign) and dotted(n.targets[0]) == "status.in_symbol_bits"]
+    for i, c in enumerate(calls):
+        key = f"{PS}::analyze_reachable_symbols::call #{i + 1} hands in the sets captured before the merge"
+        a_in = c.args[idx_in] if len(c.args) > idx_in else None
+        a_out = c.args[idx_out] if len(c.args) > idx_out else None
+        ok_in = isinstance(a_in, ast.Name) and a_in.id in caps and caps[a_in.id].value.attr == "in_symbol_bits" \
+            and (not reset or caps[a_in.id].lineno < reset[0].lineno)
+        ok_out = isinstance(a_out, ast.Name) and a_out.id in caps and caps[a_out.id].value.attr == "out_symbol_bits"
+        if ok_in and ok_out:
+            rep.holds("C06.R5", key, PS, c.lineno, f"({a_in.id}, {a_out.id}) captured from status before `status.in_symbol_bits = set()`")
+        else:
+            rep.violation("C06.R5", key, PS, c.lineno,
+                          f"update_symbols_if_changed receives (`{norm(a_in) if a_in is not None else '?'}`, `{norm(a_out) if a_out is not None else '?'}`) "
+                          f"as the old in/out sets; they are not the in-set captured before the merge and the out-set captured before the "
+                          f"transfer, so a change is compared against the wrong set")
+
 
 def _cfg_handlers(model: RepoModel) -> Dict[str, str]:
     from .. import gir
@@ -318,6 +416,14 @@ def _t(old, new, count=1):
 
 
 MUTANTS = [
+    ("relink-on-out-change", PS,
+     _t("        elif status.in_symbol_bits != old_in_symbol_bits:\n            self.update_used_symbols_to_symbol_graph(stmt_id, stmt, frame)",
+        "        elif status.out_symbol_bits != old_out_symbol_bits:\n            self.update_used_symbols_to_symbol_graph(stmt_id, stmt, frame)"),
+     "uses are re-linked when the in-set changed"),
+    ("old-sets-swapped", PS,
+     _t("                self.update_symbols_if_changed(stmt_id, stmt, frame, status, old_in_symbol_bits, old_out_symbol_bits)",
+        "                self.update_symbols_if_changed(stmt_id, stmt, frame, status, old_out_symbol_bits, old_in_symbol_bits)"),
+     "hands in the sets captured before the merge"),
     ("state-merge-aliases-single-predecessor", PS,
      _t("        for each_parent_stmt_id in parent_stmt_ids:\n            if each_parent_stmt_id in frame.stmt_id_to_status:\n                in_state_bits |= frame.stmt_id_to_status[each_parent_stmt_id].out_state_bits",
         "        if len(parent_stmt_ids) == 1 and parent_stmt_ids[0] in frame.stmt_id_to_status:\n            return frame.stmt_id_to_status[parent_stmt_ids[0]].out_state_bits\n        for each_parent_stmt_id in parent_stmt_ids:\n            if each_parent_stmt_id in frame.stmt_id_to_status:\n                in_state_bits |= frame.stmt_id_to_status[each_parent_stmt_id].out_state_bits"),
